@@ -387,8 +387,10 @@ class VizierServicer(vizier_service_pb2_grpc.VizierServiceServicer):
         suggest_decision_proto = temp_pythia_service.Suggest(
             suggest_request_proto
         )
-      # Pythia can raise any exception, captured inside grpc.RpcError.
-      except grpc.RpcError as e:
+      # Pythia can raise any exception: grpc.RpcError from a remote Pythia
+      # server, anything else from a local PythiaServicer. The operation must be
+      # finished in every case, or it would be returned as still active forever.
+      except Exception as e:  # pylint: disable=broad-except
         output_op.error.CopyFrom(
             status_pb2.Status(code=code_pb2.Code.INTERNAL, message=str(e))
         )
